@@ -228,6 +228,7 @@ func runGoSemStream(c *Ctx, n int) {
 	bt.Flush()
 	runGoSemTreeStream(c, n/10+1) // the tree of lib/common/multimap (gosem_tree.go)
 	runGoSemSynStream(c, n/2+1)   // the primitives of the syntax printer (gosem_syn.go)
+	runGoSemBayesStream(c, n/4+1) // compare.Ordered / dict.SortedKeys on byte strings, sets, map ranges, the counting statements of bayes.Model.update (gosem_bayes.go)
 	runGoSemFmtStream(c, n/2+1)   // io.Writer, fmt's padding, strings.Join, Time.Format (gosem_fmt.go)
 	runGoSemBeanStream(c, n/4+1)  // strings.HasPrefix, the regexp [^a-zA-Z], compare.Sort's guarantee, printer.New(w) and w as one sink (gosem_bean.go)
 	runGoSemFloatStream(c, n/4+1) // float64 as an exact rational on dyadic operands, x/0 as `undef` (gosem_float.go)
